@@ -58,6 +58,30 @@ class Obligation:
                 'detail': self.detail}
 
 
+_hq_cache = {}
+
+
+def _has_quant(e):
+    k = e.get_id()
+    if k in _hq_cache:
+        return _hq_cache[k]
+    r = False
+    stack = [e]
+    seen = set()
+    while stack:
+        x = stack.pop()
+        i = x.get_id()
+        if i in seen:
+            continue
+        seen.add(i)
+        if z3.is_quantifier(x):
+            r = True
+            break
+        stack.extend(x.children())
+    _hq_cache[k] = r
+    return r
+
+
 def int_range(bits, signed):
     if signed:
         return -(1 << (bits - 1)), (1 << (bits - 1)) - 1
@@ -101,17 +125,19 @@ class Exec:
         self.cnt += 1
         return '%s!%d' % (base, self.cnt)
 
-    def mk_solver(self, timeout=None):
+    def mk_solver(self, timeout=None, seed=None):
         s = z3.Solver()
         s.set('timeout', timeout or self.timeout_ms)
-        s.set('random_seed', self.seed)
+        s.set('random_seed', self.seed if seed is None else seed)
         return s
 
     def feasible(self, cond):
         """False only when hyps /\\ cond is certainly unsatisfiable"""
-        s = self.mk_solver(1500)
+        # pruning uses the quantifier-free hypotheses only (fewer hypotheses: never prunes a feasible path)
+        s = self.mk_solver(400)
         for h in self.hyps:
-            s.add(h)
+            if not _has_quant(h):
+                s.add(h)
         s.add(cond)
         t = time.time()
         r = s.check()
@@ -169,12 +195,32 @@ class Exec:
             if z3.is_true(g):
                 st, model, secs = 'discharged', None, 0.0
             else:
-                s = self.mk_solver()
-                for h in self.hyps:
-                    s.add(h)
-                s.add(z3.Not(goal))
                 t = time.time()
-                r = s.check()
+                r = None
+                # stage 1: quantifier-free hypotheses only (fewer hypotheses: 'unsat' is still a proof)
+                qf = [h for h in self.hyps if not _has_quant(h)]
+                if len(qf) < len(self.hyps) and not _has_quant(goal):
+                    s1 = self.mk_solver(min(3000, self.timeout_ms))
+                    for h in qf:
+                        s1.add(h)
+                    s1.add(z3.Not(goal))
+                    if s1.check() == z3.unsat:
+                        r = z3.unsat
+                        s = s1
+                if r is None:
+                    # portfolio over seeds with growing timeouts: unstable queries are retried, never guessed
+                    plan = [(self.timeout_ms // 4, 0), (self.timeout_ms // 2, 7), (self.timeout_ms, 13)]
+                    for tmo, sd in plan:
+                        s = self.mk_solver(tmo)
+                        s.set('random_seed', self.seed + sd)
+                        if sd:
+                            s.set('smt.random_seed', self.seed + sd) if False else None
+                        for h in self.hyps:
+                            s.add(h)
+                        s.add(z3.Not(goal))
+                        r = s.check()
+                        if r != z3.unknown:
+                            break
                 secs = time.time() - t
                 self.solver_secs += secs
                 self.nqueries += 1
@@ -246,6 +292,26 @@ class Exec:
             except Exception:
                 pass
         return out
+
+    # ------------------------------------------------------------------ ghost state
+    def ghost_trigger(self, method, path, args):
+        c = self.cur_contract
+        if c is None or not c.ghost_on or self.cur_fnode is not self.fnode:
+            return
+        for meth, var, updates in c.ghost_on:
+            if meth != method or var not in self.names:
+                continue
+            tgt = self.resolve(self.names[var])
+            if not (tgt.root == path.root):
+                continue
+            env = S.Env(self, self.store, dict(self.names), self.this_path, {})
+            extra = dict(self.spec_lets)
+            extra['arg'] = args[0] if args else None
+            new = {}
+            for g, e in updates.items():
+                new[g] = S.spec_eval_term(e, env, extra)
+            for g, v in new.items():
+                self.write(Path('ghost_' + g), v)
 
     # ------------------------------------------------------------------ store
     def read(self, path, st=None):
@@ -346,6 +412,11 @@ class Exec:
         v = z3.simplify(val)
         if z3.is_int_value(v):
             return z3.IntVal(v.as_long() % (1 << bits))
+        c = self.cur_contract
+        if c is not None and c.nowrap and what in ('add', 'sub', 'mul', 'incdec'):
+            # the contract demands the mathematical value: prove that the unsigned operation does not wrap
+            self.oblige('wrap', what, z3.And(val >= 0, val <= hi), node)
+            return val
         return val % (1 << bits)
 
     def wrap_to(self, val, sh):
@@ -798,9 +869,7 @@ class Exec:
             if z3.is_int_value(ys):
                 p = z3.IntVal(1 << ys.as_long())
             else:
-                p = POW2(y)
-                self.assume(z3.And(p >= 1))
-                self.use_pow2 = True
+                p = pow2_ite(y, bits)
             if op == '<<':
                 if sr[2]:
                     self.oblige('shift', 'lhs-nonneg', x >= 0, n)
@@ -936,7 +1005,12 @@ class Exec:
 
     def ev_InitListExpr(self, n):
         sh = self.ctype(n)
-        elems = [self.ev(c) for c in n.get('inner', ())]
+        elems = [self.ev(c) for c in n.get('inner', ()) if c.get('kind') != 'ImplicitValueInitExpr' or True]
+        t0 = n['type'].get('desugaredQualType') or n['type']['qualType']
+        if t0.endswith(']') and sh[0] == 'opaque':
+            return self.vec_of(elems, self.shapes.of(t0[:t0.rindex('[')]))
+        if sh[0] == 'vec' and len(elems) == 1 and isinstance(elems[0], VecVal):
+            return elems[0]
         if sh[0] == 'struct':
             f = {}
             for (fn_, fs), v in zip(sh[2], elems):
@@ -1148,6 +1222,15 @@ class Exec:
 
 
 POW2 = z3.Function('pow2', z3.IntSort(), z3.IntSort())
+
+
+def pow2_ite(y, bits=64):
+    """2**y for 0 <= y < bits as an explicit case split (exact; shift amounts are range-checked first)"""
+    r = z3.IntVal(1 << (bits - 1))
+    for k in range(bits - 2, -1, -1):
+        r = z3.If(y == k, z3.IntVal(1 << k), r)
+    return r
+
 BITAND = z3.Function('bitand', z3.IntSort(), z3.IntSort(), z3.IntSort())
 BITOR = z3.Function('bitor', z3.IntSort(), z3.IntSort(), z3.IntSort())
 BITXOR = z3.Function('bitxor', z3.IntSort(), z3.IntSort(), z3.IntSort())
